@@ -31,8 +31,14 @@ def _init_bindings(cls: ast.ClassDef) -> dict[str, ast.expr]:
     return out
 
 
+_DEQUE_SUBS: set[str] = set()
+
+
 def _is_call(v: ast.expr, *names: str) -> bool:
-    return isinstance(v, ast.Call) and not v.args and not v.keywords and ast.unparse(v.func) in names
+    if not (isinstance(v, ast.Call) and not v.args and not v.keywords):
+        return False
+    fn = ast.unparse(v.func)
+    return fn in names or ("deque" in names and fn in _DEQUE_SUBS)
 
 
 def _from_param(p: str) -> Callable[[ast.expr], bool]:
@@ -87,6 +93,10 @@ METHOD_ROLES = {
 def normalise_module(module_name: str, tree: ast.Module) -> dict[str, dict[str, str]]:
     """rename in place; returns {class qual: {actual name: canonical name}} for the evidence"""
     done: dict[str, dict[str, str]] = {}
+    # a private deque subclass of this module plays the deque's role (`self._tokens = _TokenWindow()`)
+    deque_subs = {c.name for c in tree.body if isinstance(c, ast.ClassDef) and any(ast.unparse(b).split("[")[0].split(".")[-1] == "deque" for b in c.bases)}
+    _DEQUE_SUBS.clear()
+    _DEQUE_SUBS.update(deque_subs)
     for cls in [n for n in tree.body if isinstance(n, ast.ClassDef)]:
         qual = f"{module_name}:{cls.name}"
         if qual not in FIELD_ROLES:
@@ -1439,3 +1449,76 @@ def repack_dissolved_params(trees: dict[str, ast.Module]) -> dict[str, dict[str,
                 c.keywords.insert(min(pos, len(c.keywords)), ast.keyword(arg=obj, value=base))
             done[qual] = {x: f"{obj}.{f}" for x, f in field_of.items()}
     return done
+
+
+# ------------------------------------------------------------------ nested helpers only ever called as `return f(...)`
+
+def inline_tail_closures(trees: dict[str, ast.Module], known_funcs: set[str]) -> int:
+    """`def stop(event, reason): self.last_stop_reason = reason; self.emit(...); return _RetryDecision("raise")` nested
+    in a function that only ever says `return stop(A, B)` with plain arguments: each such return is the helper's body
+    with the arguments in place of the parameters (its free variables are read at the call either way, its own `return`s
+    return from the enclosing function exactly as `return stop(...)` did).  Expanded in memory - the closure is notation,
+    and the abstract interpreter then sees the stores on the enclosing function's own `self`.  A helper that is
+    referenced in any other way (passed on, returned, called for its value) is left as it is; so are helpers the rules
+    know by name."""
+    import copy
+
+    n_done = 0
+    for mname, tree in trees.items():
+        for outer in [n for n in ast.walk(tree) if isinstance(n, (ast.FunctionDef, ast.AsyncFunctionDef))]:
+            for f in [st for st in outer.body if isinstance(st, ast.FunctionDef) and not st.decorator_list]:
+                if any(q.endswith(f".<locals>.{f.name}") and q.startswith(mname + ":") for q in known_funcs):
+                    continue
+                if any(isinstance(n, (ast.Yield, ast.YieldFrom, ast.Await, ast.FunctionDef, ast.AsyncFunctionDef, ast.Lambda, ast.Global, ast.Nonlocal)) for b in f.body for n in ast.walk(b)):
+                    continue
+                body = [b for b in f.body if not _is_docstring(b)]
+                if not body:
+                    continue
+                # every path of the helper ends in a `return`: nothing falls out of the spliced body
+                def ends(stmts: list[ast.stmt]) -> bool:
+                    if not stmts:
+                        return False
+                    last = stmts[-1]
+                    if isinstance(last, (ast.Return, ast.Raise)):
+                        return True
+                    if isinstance(last, ast.If):
+                        return ends(last.body) and ends(last.orelse)
+                    return False
+
+                if not ends(body):
+                    continue
+                refs = [n for n in ast.walk(outer) if isinstance(n, ast.Name) and n.id == f.name]
+                rets = [n for n in ast.walk(outer) if isinstance(n, ast.Return) and isinstance(n.value, ast.Call) and isinstance(n.value.func, ast.Name) and n.value.func.id == f.name]
+                if not rets or len(refs) != len(rets) or any(r in ast.walk(f) for r in rets):
+                    continue
+                params = {a.arg for a in f.args.args + f.args.kwonlyargs}
+                stored = {x.id for b in body for x in ast.walk(b) if isinstance(x, ast.Name) and isinstance(x.ctx, (ast.Store, ast.Del))}
+                if stored & params:
+                    continue
+                binds = [_bind_args(f, r.value, None) for r in rets]
+                if any(b is None for b in binds):
+                    continue
+                outer_names = {x.id for x in ast.walk(outer) if isinstance(x, ast.Name)} - {x.id for b in body for x in ast.walk(b) if isinstance(x, ast.Name)}
+                ren = {nm: f"__{f.name}_{nm}" for nm in stored}
+                repl: dict[int, list[ast.stmt]] = {}
+                for r, mp in zip(rets, binds):
+                    new = ast.Module(body=[copy.deepcopy(b) for b in body], type_ignores=[])
+                    new = _Subst(mp, ren).visit(new)
+                    for b in new.body:
+                        ast.fix_missing_locations(b)
+                    repl[id(r)] = new.body
+                for n in ast.walk(outer):
+                    for fld in ("body", "orelse", "finalbody"):
+                        seq = getattr(n, fld, None)
+                        if isinstance(seq, list) and seq and isinstance(seq[0], ast.stmt):
+                            out: list[ast.stmt] = []
+                            for st in seq:
+                                if id(st) in repl:
+                                    out.extend(repl[id(st)])
+                                elif st is f:
+                                    continue
+                                else:
+                                    out.append(st)
+                            seq[:] = out or [ast.copy_location(ast.Pass(), outer)]
+                n_done += 1
+    return n_done
